@@ -439,6 +439,19 @@ func genStub(pkg LabPkg, code string) (string, error) {
 	}
 	sort.Strings(funcs)
 	sort.Strings(types)
+	if hasFuncDecl(p, "NewClientWithResponses") && hasFuncDecl(p, "WithHTTPClient") && hasFuncDecl(p, "WithRequestEditorFn") {
+		// the generated client as a user assembles it: its options, a doer of the driver's, request editors
+		sb.WriteString(`func LabNewClient(server string, doer labrt.Doer, editors []func(context.Context, *http.Request) error) (any, error) {
+	opts := []ClientOption{WithHTTPClient(doer)}
+	for _, e := range editors {
+		opts = append(opts, WithRequestEditorFn(RequestEditorFn(e)))
+	}
+	return NewClientWithResponses(server, opts...)
+}
+
+`)
+		funcs = append(funcs, "LabNewClient")
+	}
 	sb.WriteString("func Funcs() map[string]any {\n\treturn map[string]any{\n")
 	for _, f := range funcs {
 		fmt.Fprintf(&sb, "\t\t%q: %s,\n", f, f)
